@@ -91,17 +91,20 @@ func PipeIO(writer io.Writer, reader io.Reader) (n int64, err error) {
 	errC := make(chan error, 1)
 	go func() {
 		defer pw.Close()
-		_, err = io.Copy(pw, reader)
-		if err != nil {
-			errC <- err
+		_, erc := io.Copy(pw, reader)
+		if erc != nil {
+			errC <- erc
 		}
 		close(errC)
 	}()
 	written, err := io.Copy(writer, pr)
-	select {
-	case err = <-errC:
-		return 0, err
-	default:
+	if err != nil {
+		// the writer failed: report that, whatever the reading side did meanwhile (and let it go)
+		_ = pr.CloseWithError(err)
+		return written, err
 	}
-	return written, err
+	if erc := <-errC; erc != nil {
+		return 0, erc
+	}
+	return written, nil
 }
